@@ -1,238 +1,121 @@
 (** Proofs about Out/Continuous.v (property C22): what the constructor's
     [__check_dependency] accepts, exactly, and what that buys.
 
-    The check keeps a set [allfactors] of names.  A factor enters the set when
-    it has no dependents, or when (one of) its dependents is a ContinuousFactor
-    that passed the test "its name is in the set".  Hence a factor derived only
-    from discrete factors and/or windows is NEVER recorded ([recorded_f]), and
-    a window is never looked into.
+    The check (as repaired in the code by the commits 91e3c5c and 97de4ab, after
+    the two refutation witnesses of the earlier version of this file were
+    replayed on the real code) walks the continuous factors in design order
+    with the set of the names seen so far; every ContinuousFactor a factor
+    depends on - directly, or as a factor of a ContinuousFactorWindow
+    ([needed]) - must be in that set.
 
-    - [dependency_check_exact]: acceptance <-> every direct continuous dependent
-      is a RECORDED earlier factor (or the factor itself after another continuous
-      dependent - not constructible in Python);
-    - [dependency_check_sound]: an accepted design whose windows range over
-      earlier factors and whose discrete dependents are columns of the sample
-      never raises while sampling (the window condition is what the check omits:
-      [dependency_check_sound_refuted] in Out/ContinuousProofs.v);
-    - [dependency_check_complete]: a design all of whose direct continuous
-      dependents are earlier recorded factors is accepted; the condition
-      "recorded" cannot be dropped ([dependency_check_complete_refuted]), in fact
-      EVERY design in which a factor derived only from discrete factors / windows
-      is used as a direct dependent is rejected ([dependency_check_rejects_derived]). *)
+    - [dependency_check_exact]: acceptance <-> every needed continuous factor is
+      an earlier continuous factor of the design;
+    - [dependency_check_complete]: the <- direction on its own;
+    - [dependency_check_sound]: an accepted design never raises while sampling
+      and yields [T] values per factor.  The remaining hypotheses are each
+      necessary: distinct names (a second factor of the same name hides the
+      first), no window over an EMPTY list of factors ([get_window_val] reads
+      [outlist[0]]: [dependency_check_empty_window_refuted]), discrete
+      dependents that are columns of the sample (not the business of this check:
+      the block's design is), no string result in cumulative mode. *)
 From Coq Require Import ZArith List Bool String Lia ZifyBool.
 From SP Require Import Out.Continuous Out.ContinuousProofs Out.ContinuousLive.
 Import ListNotations.
 Open Scope Z_scope.
 
-Definition is_cont (d : dependent) : bool := match d with DCont _ => true | _ => false end.
-
-(** some dependent is a ContinuousFactor *)
-Definition has_cont (deps : list dependent) : bool := existsb is_cont deps.
-
-(** The factors [__check_dependency] records: the independent ones and those
-    with a direct continuous dependent. *)
-Definition recorded_f (f : cfactor) : bool :=
-  match cf_deps f with [] => true | ds => has_cont ds end.
-
-Definition recorded (fs : list cfactor) : list string := map cf_name (filter recorded_f fs).
-
-Lemma recorded_cons : forall f fs,
-  recorded (f :: fs) = if recorded_f f then cf_name f :: recorded fs else recorded fs.
-Proof. intros. unfold recorded. cbn. destruct (recorded_f f); reflexivity. Qed.
-
-Lemma recorded_app : forall a b, recorded (a ++ b) = recorded a ++ recorded b.
-Proof. intros. unfold recorded. now rewrite filter_app, map_app. Qed.
-
-Lemma recorded_in : forall fs n, In n (recorded fs) <-> exists g, In g fs /\ cf_name g = n /\ recorded_f g = true.
+Lemma check_needed_spec : forall ns allf,
+  check_needed ns allf = true <-> forall n, In n ns -> In n allf.
 Proof.
-  intros fs n. unfold recorded. rewrite in_map_iff. split.
-  - intros (g & Hn & Hg). apply filter_In in Hg. exists g. tauto.
-  - intros (g & Hg & Hn & Hr). exists g. split; auto. apply filter_In. tauto.
+  induction ns as [|n0 tl IH]; intros allf; cbn.
+  - split; auto. intros _ n [].
+  - destruct (mem n0 allf) eqn:Em.
+    + apply mem_In in Em. rewrite IH. split.
+      * intros H n [<-|Hn]; auto.
+      * intros H n Hn. apply H. right; auto.
+    + split; [discriminate|]. intros H. specialize (H n0 (or_introl eq_refl)).
+      apply mem_In in H. congruence.
 Qed.
 
-Lemma recorded_incl : forall fs n, In n (recorded fs) -> In n (map cf_name fs).
-Proof. intros fs n H. apply recorded_in in H. destruct H as (g & Hg & <- & _). now apply in_map. Qed.
-
-(** * One factor *)
-
-(** every continuous dependent [n] of [deps] is in [allf], or is [name] itself
-    after another continuous dependent *)
-Definition deps_ok (name : string) (deps : list dependent) (allf : list string) : Prop :=
-  forall d1 n d2, deps = d1 ++ DCont n :: d2 -> In n allf \/ (n = name /\ has_cont d1 = true).
-
-Lemma deps_ok_skip : forall name d tl allf, is_cont d = false ->
-  (deps_ok name (d :: tl) allf <-> deps_ok name tl allf).
+Lemma check_deps_of_spec : forall deps allf,
+  check_deps_of deps allf = true <-> forall d n, In d deps -> In n (needed d) -> In n allf.
 Proof.
-  intros name d tl allf Hd. unfold deps_ok. split; intros H d1 n d2 Heq.
-  - destruct (H (d :: d1) n d2) as [Hi|(Hn & Hc)]; [cbn; now rewrite Heq|auto|].
-    right. split; auto. cbn in Hc. now rewrite Hd in Hc.
-  - destruct d1 as [|d0 d1]; cbn in Heq.
-    + injection Heq as -> _. discriminate.
-    + injection Heq as -> Heq. destruct (H d1 n d2 Heq) as [Hi|(Hn & Hc)]; auto.
-      right. split; auto. cbn. now rewrite Hd.
-Qed.
-
-Lemma check_deps_of_spec : forall name deps allf,
-  match check_deps_of name deps allf with
-  | Some allf' => deps_ok name deps allf /\
-                  forall k, In k allf' <-> In k allf \/ (has_cont deps = true /\ k = name)
-  | None => ~ deps_ok name deps allf
-  end.
-Proof.
-  intros name. induction deps as [|d tl IH]; intros allf.
-  - cbn. split.
-    + intros d1 n d2 Heq. destruct d1; discriminate.
-    + intros k. intuition discriminate.
-  - destruct d as [z|n0|n0|w];
-      try (cbn [check_deps_of]; specialize (IH allf); destruct (check_deps_of name tl allf) as [allf'|];
-           [destruct IH as (H1 & H2); split; [now apply deps_ok_skip|exact H2]
-           |intros H; apply IH; now apply deps_ok_skip in H]).
-    cbn [check_deps_of]. destruct (mem n0 allf) eqn:Em.
-    + apply mem_In in Em. specialize (IH (name :: allf)).
-      destruct (check_deps_of name tl (name :: allf)) as [allf'|].
-      * destruct IH as (H1 & H2). split.
-        -- intros d1 n d2 Heq. destruct d1 as [|d0 d1]; cbn in Heq.
-           ++ injection Heq as <- _. auto.
-           ++ injection Heq as <- Heq. destruct (H1 d1 n d2 Heq) as [[<-|Hi]|(Hn & Hc)]; auto.
-        -- intros k. rewrite H2. cbn. intuition.
-      * intros H. apply IH. intros d1 n d2 Heq.
-        destruct (H (DCont n0 :: d1) n d2) as [Hi|(Hn & Hc)]; [cbn; now rewrite Heq|left; right; auto|].
-        left. left. auto.
-    + intros H. destruct (H [] n0 tl eq_refl) as [Hi|(_ & Hc)]; [|discriminate].
-      apply mem_In in Hi. congruence.
-Qed.
-
-(** * The loop over the factors *)
-
-Definition step (f : cfactor) (allf : list string) : option (list string) :=
-  match cf_deps f with
-  | [] => Some (cf_name f :: allf)
-  | ds => check_deps_of (cf_name f) ds allf
-  end.
-
-Lemma check_dependency_from_step : forall f tl allf,
-  check_dependency_from (f :: tl) allf =
-  match step f allf with None => false | Some allf' => check_dependency_from tl allf' end.
-Proof. intros. unfold step. cbn. destruct (cf_deps f); reflexivity. Qed.
-
-Lemma step_spec : forall f allf,
-  match step f allf with
-  | Some allf' => deps_ok (cf_name f) (cf_deps f) allf /\
-                  forall k, In k allf' <-> In k allf \/ (recorded_f f = true /\ k = cf_name f)
-  | None => ~ deps_ok (cf_name f) (cf_deps f) allf
-  end.
-Proof.
-  intros f allf. unfold step, recorded_f. destruct (cf_deps f) as [|d ds] eqn:Ed.
-  - split.
-    + intros d1 n d2 Heq. destruct d1; discriminate.
-    + intros k. cbn. intuition.
-  - apply check_deps_of_spec.
-Qed.
-
-(** all factors of [fs], processed after the names [allf] and the factors [pre0] *)
-Definition all_ok (fs : list cfactor) (allf : list string) : Prop :=
-  forall pre f post, fs = pre ++ f :: post ->
-    deps_ok (cf_name f) (cf_deps f) (allf ++ recorded pre).
-
-Lemma deps_ok_ext : forall name deps a b, (forall k, In k a <-> In k b) ->
-  deps_ok name deps a -> deps_ok name deps b.
-Proof.
-  intros name deps a b Hab H d1 n d2 Heq. destruct (H d1 n d2 Heq) as [Hi|Hs]; auto. left. now apply Hab.
+  induction deps as [|d0 tl IH]; intros allf; cbn.
+  - split; auto. intros _ d n [].
+  - destruct (check_needed (needed d0) allf) eqn:En.
+    + rewrite IH. pose proof (proj1 (check_needed_spec _ _) En) as H0. split.
+      * intros H d n [<-|Hd] Hn; eauto.
+      * intros H d n Hd Hn. apply (H d n); auto.
+    + split; [discriminate|]. intros H.
+      assert (Ht : check_needed (needed d0) allf = true).
+      { apply check_needed_spec. intros n Hn. apply (H d0 n); auto. }
+      congruence.
 Qed.
 
 Lemma check_dependency_from_spec : forall fs allf,
-  check_dependency_from fs allf = true <-> all_ok fs allf.
+  check_dependency_from fs allf = true <->
+  forall pre f post d n, fs = pre ++ f :: post -> In d (cf_deps f) -> In n (needed d) ->
+    In n allf \/ In n (map cf_name pre).
 Proof.
-  induction fs as [|f tl IH]; intros allf.
-  - cbn. split; auto. intros _ pre f post Heq. destruct pre; discriminate.
-  - rewrite check_dependency_from_step. pose proof (step_spec f allf) as Hs.
-    destruct (step f allf) as [allf'|].
-    + destruct Hs as (Hok & Hmem). rewrite IH. split.
-      * intros H pre g post Heq. destruct pre as [|p pre']; cbn in Heq.
-        -- injection Heq as <- _. cbn. now rewrite app_nil_r.
-        -- injection Heq as <- Heq. eapply deps_ok_ext; [|apply (H pre' g post Heq)].
-           intros k. rewrite recorded_cons, !in_app_iff, Hmem.
-           destruct (recorded_f f); cbn; intuition congruence.
-      * intros H pre g post Heq. eapply deps_ok_ext; [|apply (H (f :: pre) g post); cbn; now rewrite Heq].
-        intros k. rewrite recorded_cons, !in_app_iff, Hmem.
-        destruct (recorded_f f); cbn; intuition congruence.
-    + split; [discriminate|]. intros H. exfalso. apply Hs.
-      specialize (H [] f tl eq_refl). cbn in H. now rewrite app_nil_r in H.
+  induction fs as [|f0 tl IH]; intros allf; cbn [check_dependency_from].
+  - split; auto. intros _ pre f post d n Heq. destruct pre; discriminate.
+  - destruct (check_deps_of (cf_deps f0) allf) eqn:Ed.
+    + pose proof (proj1 (check_deps_of_spec _ _) Ed) as H0. rewrite IH. split.
+      * intros H pre f post d n Heq Hd Hn. destruct pre as [|p pre']; cbn in Heq.
+        -- injection Heq as <- _. left. eapply H0; eauto.
+        -- injection Heq as <- Heq. destruct (H pre' f post d n Heq Hd Hn) as [[<-|Hi]|Hi]; cbn; auto.
+      * intros H pre f post d n Heq Hd Hn.
+        destruct (H (f0 :: pre) f post d n) as [Hi|[<-|Hi]]; cbn; auto. now rewrite Heq.
+    + split; [discriminate|]. intros H.
+      assert (Ht : check_deps_of (cf_deps f0) allf = true).
+      { apply check_deps_of_spec. intros d n Hd Hn.
+        destruct (H [] f0 tl d n eq_refl Hd Hn) as [Hi|[]]. exact Hi. }
+      congruence.
 Qed.
 
 (** ** Exactly what [__check_dependency] accepts *)
 Theorem dependency_check_exact : forall fs,
   check_dependency fs = true <->
-  forall pre f post d1 n d2, fs = pre ++ f :: post -> cf_deps f = d1 ++ DCont n :: d2 ->
-    In n (recorded pre) \/ (n = cf_name f /\ has_cont d1 = true).
+  forall pre f post d n, fs = pre ++ f :: post -> In d (cf_deps f) -> In n (needed d) ->
+    In n (map cf_name pre).
 Proof.
-  intros fs. unfold check_dependency. rewrite check_dependency_from_spec. unfold all_ok, deps_ok. cbn [app].
-  split; intros H; intros; eapply H; eauto.
+  intros fs. unfold check_dependency. rewrite check_dependency_from_spec. split; intros H pre f post d n Heq Hd Hn.
+  - destruct (H pre f post d n Heq Hd Hn) as [[]|Hi]. exact Hi.
+  - right. eauto.
 Qed.
 
-(** ** Completeness, up to "recorded" *)
+(** ** Completeness: continuous dependents, direct or through windows, that are
+    earlier continuous factors of the design are accepted *)
 Theorem dependency_check_complete : forall fs,
-  (forall pre f post n, fs = pre ++ f :: post -> In (DCont n) (cf_deps f) ->
-     exists g, In g pre /\ cf_name g = n /\ (cf_deps g = [] \/ exists m, In (DCont m) (cf_deps g))) ->
+  (forall pre f post n, fs = pre ++ f :: post -> In (DCont n) (cf_deps f) -> In n (map cf_name pre)) ->
+  (forall pre f post w g, fs = pre ++ f :: post -> In (DWin w) (cf_deps f) -> In g (w_factors w) ->
+     In g (map cf_name pre)) ->
   check_dependency fs = true.
 Proof.
-  intros fs H. apply dependency_check_exact. intros pre f post d1 n d2 Heq Hd. left.
-  destruct (H pre f post n Heq) as (g & Hg & Hn & Hr).
-  { rewrite Hd. apply in_or_app. right. left. reflexivity. }
-  apply recorded_in. exists g. repeat split; auto. unfold recorded_f.
-  destruct Hr as [->|(m & Hm)]; auto.
-  destruct (cf_deps g) as [|d ds] eqn:Ed; auto.
-  unfold has_cont. apply existsb_exists. exists (DCont m). split; auto.
+  intros fs Hc Hw. apply dependency_check_exact. intros pre f post d n Heq Hd Hn.
+  destruct d as [z|m|m|w]; cbn in Hn; try contradiction.
+  - destruct Hn as [<-|[]]. eapply Hc; eauto.
+  - eapply Hw; eauto.
 Qed.
 
-(** ... and "recorded" cannot be dropped: a factor derived only from discrete
-    factors and/or windows makes every design in which a later factor depends
-    on it directly be rejected. *)
-Lemma NoDup_name_inj : forall (l : list cfactor) g g',
-  NoDup (map cf_name l) -> In g l -> In g' l -> cf_name g = cf_name g' -> g = g'.
+(** A direct continuous dependent of an accepted design is an earlier factor
+    of the design (the second alternative, the factor itself, was possible under
+    the check of the pinned code; the statement is kept). *)
+Lemma dependency_check_partial : forall fs pre f post n,
+  check_dependency fs = true -> fs = pre ++ f :: post -> In (DCont n) (cf_deps f) ->
+  In n (map cf_name pre) \/ n = cf_name f.
 Proof.
-  induction l as [|x tl IH]; intros g g' Hnd Hg Hg' Hn; [destruct Hg|].
-  cbn in Hnd. inversion Hnd as [|? ? Hnotin Hnd']; subst.
-  destruct Hg as [<-|Hg], Hg' as [<-|Hg']; auto.
-  - exfalso. apply Hnotin. rewrite Hn. now apply in_map.
-  - exfalso. apply Hnotin. rewrite <- Hn. now apply in_map.
+  intros fs pre f post n H Heq Hn. left.
+  apply (proj1 (dependency_check_exact fs) H pre f post (DCont n) n Heq Hn). left. reflexivity.
 Qed.
 
-Theorem dependency_check_rejects_derived : forall pre g mid f post,
-  NoDup (map cf_name (pre ++ g :: mid ++ f :: post)) ->
-  cf_deps g <> [] -> (forall m, ~ In (DCont m) (cf_deps g)) ->
-  In (DCont (cf_name g)) (cf_deps f) ->
-  check_dependency (pre ++ g :: mid ++ f :: post) = false.
-Proof.
-  intros pre g mid f post Hnd Hne Hnc Hin.
-  destruct (check_dependency (pre ++ g :: mid ++ f :: post)) eqn:E; auto. exfalso.
-  destruct (in_split _ _ Hin) as (d1 & d2 & Hd).
-  assert (Heq : pre ++ g :: mid ++ f :: post = (pre ++ g :: mid) ++ f :: post)
-    by (rewrite <- app_assoc; reflexivity).
-  pose proof (proj1 (dependency_check_exact _) E (pre ++ g :: mid) f post d1 (cf_name g) d2 Heq Hd) as [Hr|(Hn & _)].
-  - apply recorded_in in Hr. destruct Hr as (g' & Hg' & Hn & Hr).
-    assert (g' = g).
-    { apply (NoDup_name_inj (pre ++ g :: mid ++ f :: post)); auto.
-      - rewrite Heq. apply in_or_app. left. exact Hg'.
-      - apply in_or_app. right. left. reflexivity. }
-    subst g'. unfold recorded_f in Hr. destruct (cf_deps g) as [|d ds] eqn:Ed; [congruence|].
-    unfold has_cont in Hr. apply existsb_exists in Hr. destruct Hr as (x & Hx & Hc).
-    destruct x as [z|n|n|w]; try discriminate. apply (Hnc n). exact Hx.
-  - rewrite Heq, map_app in Hnd. cbn in Hnd. apply NoDup_remove_2 in Hnd. apply Hnd.
-    apply in_or_app. left. rewrite <- Hn. apply in_map. apply in_or_app. right. left. reflexivity.
-Qed.
-
-(** ** Soundness, up to what the check does not look at *)
+(** ** Soundness *)
 Section Sound.
 Variable gen : string -> nat -> nat -> list input -> val.
 
 Theorem dependency_check_sound : forall T trial fs a log,
   NoDup (map cf_name fs) -> check_dependency fs = true ->
-  (* not looked at by the check: windows (over earlier factors, non-empty) *)
-  (forall pre f post w, fs = pre ++ f :: post -> In (DWin w) (cf_deps f) ->
-     w_factors w <> [] /\ forall g, In g (w_factors w) -> In g (map cf_name pre)) ->
-  (* a factor is not its own dependent (not constructible in Python) *)
-  (forall f, In f fs -> ~ In (DCont (cf_name f)) (cf_deps f)) ->
+  (* a window has at least one factor *)
+  (forall f w, In f fs -> In (DWin w) (cf_deps f) -> w_factors w <> []) ->
   (* discrete dependents are columns of the sampled trials *)
   (forall f n, In f fs -> In (DDisc n) (cf_deps f) -> exists l, get trial n = Some l /\ (T <= List.length l)%nat) ->
   (* cumulative mode adds the result to a float *)
@@ -240,21 +123,60 @@ Theorem dependency_check_sound : forall T trial fs a log,
   exists out log', _sample_continuous gen T trial fs a log = Ok (out, log') /\
     forall f, In f fs -> exists vs, get out (cf_name f) = Some vs /\ List.length vs = T.
 Proof.
-  intros T trial fs a log Hnd Hchk Hwin Hself Hdisc Hgen.
+  intros T trial fs a log Hnd Hchk Hwin Hdisc Hgen.
+  pose proof (proj1 (dependency_check_exact fs) Hchk) as Hex.
   destruct (sample_total gen T trial fs a log Hnd) as (out & log' & E); auto.
   - intros pre f post d Heq Hd.
     assert (Hf : In f fs) by (rewrite Heq; apply in_or_app; right; left; reflexivity).
     destruct d as [z|n|n|w]; cbn.
     + exact I.
     + eapply Hdisc; eauto.
-    + destruct (dependency_check_partial fs pre f post n Hchk Heq Hd) as [Hi|Hs]; auto.
-      subst n. exfalso. eapply Hself; eauto.
-    + eapply Hwin; eauto.
+    + apply (Hex pre f post (DCont n) n Heq Hd). left. reflexivity.
+    + split; [eapply Hwin; eauto|]. intros g Hg. apply (Hex pre f post (DWin w) g Heq Hd). exact Hg.
   - exists out, log'. split; auto.
     apply _sample_continuous_inv in E; auto. tauto.
 Qed.
 
+(** ... hence, with well-formed constraints, no attempt of the resample loop
+    raises on an accepted design. *)
+Theorem accepted_attempt_total : forall T trial fs cs a,
+  NoDup (map cf_name fs) -> check_dependency fs = true ->
+  (forall f w, In f fs -> In (DWin w) (cf_deps f) -> w_factors w <> []) ->
+  (forall f n, In f fs -> In (DDisc n) (cf_deps f) -> exists l, get trial n = Some l /\ (T <= List.length l)%nat) ->
+  (forall f, In f fs -> cf_cumulative f = true -> forall a i inp t, gen (cf_name f) a i inp <> VStr t) ->
+  constraints_wf fs cs ->
+  forall e, attempt gen T trial fs cs a <> Raise e.
+Proof.
+  intros T trial fs cs a Hnd Hchk Hwin Hdisc Hgen Hcw.
+  pose proof (proj1 (dependency_check_exact fs) Hchk) as Hex.
+  apply attempt_total; auto.
+  intros pre f post d Heq Hd.
+  assert (Hf : In f fs) by (rewrite Heq; apply in_or_app; right; left; reflexivity).
+  destruct d as [z|n|n|w]; cbn.
+  - exact I.
+  - eapply Hdisc; eauto.
+  - apply (Hex pre f post (DCont n) n Heq Hd). left. reflexivity.
+  - split; [eapply Hwin; eauto|]. intros g Hg. apply (Hex pre f post (DWin w) g Heq Hd). exact Hg.
+Qed.
+
 End Sound.
+
+(** The hypothesis on windows cannot be dropped: a window over no factor is
+    accepted, and sampling raises IndexError ([outlist[0]]). *)
+Local Open Scope string_scope.
+Definition empty_window_design : list cfactor :=
+  [ {| cf_name := "c0"; cf_deps := [DWin (window_post_init [] 2 1 None)]; cf_cumulative := false |} ].
+
+Lemma dependency_check_empty_window_refuted :
+  exists fs T trial, NoDup (map cf_name fs) /\ check_dependency fs = true /\
+    forall gen a, _sample_continuous gen T trial fs a [] = Err IndexError.
+Proof.
+  exists empty_window_design, 2%nat, []. split; [|split].
+  - repeat constructor; cbn; intuition.
+  - reflexivity.
+  - intros gen a. reflexivity.
+Qed.
+Local Close Scope string_scope.
 
 (** * The concrete design of Out/ContinuousProofs.v satisfies the hypotheses *)
 Local Open Scope string_scope.
@@ -290,7 +212,7 @@ Lemma ex_attempts :
             ("total", [VNum 4; VNum 9; VNum 15]); ("mix", [VNum 7; VNum 13; VNum 18])].
 Proof. split; vm_compute; reflexivity. Qed.
 
-Lemma ex_check_dependency : check_dependency ex_fs = true /\ recorded ex_fs = ["rt"; "total"; "mix"].
-Proof. split; reflexivity. Qed.
+Lemma ex_check_dependency : check_dependency ex_fs = true.
+Proof. reflexivity. Qed.
 
 Local Close Scope string_scope.
